@@ -61,6 +61,12 @@ mod definitions;
 mod pretty_print;
 mod chemistry;
 
+#[cfg(mathcat_verif)]
+/// Verification hooks (compiled only with `--cfg mathcat_verif`)
+pub mod verif {
+    pub use crate::canonicalize::verif as canonicalize;
+}
+
 pub mod shim_filesystem; // really just for override_file_for_debugging_rules, but the config seems to throw it off
 pub use interface::*;
 
